@@ -43,6 +43,8 @@ SIG_DIRS = "multischema:one-directory-for-several-schemas"
 EXCL_SPLIT = "multi-schema file whose schemas depend on each other's enumerations/selects/supertypes (open finding: numbered pass files)"
 EXCL_DIRS = "multi-schema file named by a stem/data directory shorter than a schema name (open finding: shared directory)"
 
+TIMEOUT = 30     # seconds per tool run (the inputs take ~20 ms); hit => inconclusive, never a verdict
+
 LISTS = ("entity_hdrs", "type_hdrs", "misc_hdrs", "entity_impls", "type_impls", "misc_impls")
 
 
@@ -110,9 +112,12 @@ def evaluate(text, stem, datadir, schema_names, wd):
         res["sig"] = sig or (("mismatch:" + re.sub(r"\d+", "N", probs[0])[:60]) if probs else None)
         return res
 
-    rc, out, err, _ = common.run([SCANNER[0], exp], cwd=scan_dir, timeout=60)
+    rc, out, err, _ = common.run([SCANNER[0], exp], cwd=scan_dir, timeout=TIMEOUT)
+    if rc is None:
+        info["timeout"] = "schema_scanner"
+        return done()
     if rc != 0:
-        rc2, o2, e2, _ = common.run([build.tool("plain", "exp2cxx"), exp], cwd=src_dir, timeout=60)
+        rc2, o2, e2, _ = common.run([build.tool("plain", "exp2cxx"), exp], cwd=src_dir, timeout=TIMEOUT)
         info["rejected"] = True
         if rc2 == 0:
             probs.append("scanner rejects (rc=%s) a file the generator accepts: %s" % (rc, (out + err)[-300:]))
@@ -155,7 +160,12 @@ def evaluate(text, stem, datadir, schema_names, wd):
             continue
         seen_schemas.append(sname)
         # (c) run the generator the way SC_Run_exp2cxx.cmake does
-        rc, out2, err2, _ = common.run([build.tool("plain", "exp2cxx"), c["target_path"]], cwd=d, timeout=120)
+        rc, out2, err2, _ = common.run([build.tool("plain", "exp2cxx"), c["target_path"]], cwd=d, timeout=TIMEOUT)
+        if rc is None:
+            # no wall-clock verdicts: a tool that does not return within TIMEOUT is reported as inconclusive
+            info["timeout"] = "exp2cxx"
+            del probs[:]
+            return done()
         if rc != 0:
             probs.append("%s: exp2cxx exits %s on a file the scanner accepted: %s" % (base, rc, (out2 + err2)[-300:]))
             info["rejected"] = True
@@ -210,11 +220,53 @@ def evaluate(text, stem, datadir, schema_names, wd):
 
 
 SCANNER = [None]
+HANG = [False]
+EXCL_HANG = ("multi-schema file in which two schemas each have a supertype entity of the same name (exp2cxx does not return: "
+             "ComplexCollect::remove() looks lists up by name; probed at start-up, see extra.hang_probe)")
+_HANG_SRC = """SCHEMA %s;
+ENTITY b; END_ENTITY;
+ENTITY c SUBTYPE OF (b); END_ENTITY;
+END_SCHEMA;
+SCHEMA %s;
+ENTITY a; END_ENTITY;
+ENTITY b SUBTYPE OF (a); END_ENTITY;
+ENTITY d SUBTYPE OF (b); END_ENTITY;
+END_SCHEMA;
+"""
+
+
+def probe_hang():
+    """Does exp2cxx still fail to return on two schemas with same-named supertypes?  (Both hash orders are tried.)
+    Only decides whether that shape is generated; it is never a verdict."""
+    wd = common.scratch("c17-hangprobe")
+    hung = False
+    for k, (a, b) in enumerate((("one_s", "two_s"), ("zz_s", "two_s"), ("two_s", "one_s"), ("two_s", "zz_s"))):
+        d = os.path.join(wd, "p%d" % k)
+        os.makedirs(d)
+        with open(os.path.join(d, "probe.exp"), "w") as f:
+            f.write(_HANG_SRC % (a, b))
+        rc, _o, _e, _t = common.run([build.tool("plain", "exp2cxx"), "probe.exp"], cwd=d, timeout=8)
+        if rc is None:
+            hung = True
+            break
+    shutil.rmtree(wd, ignore_errors=True)
+    return hung
+
+
+def hang_shape(f):
+    seen = set()
+    for d in f["schemas"]:
+        sup = set(s.lower() for e in d["entities"] for s in e["supers"])
+        if sup & seen:
+            return True
+        seen |= sup
+    return False
 
 
 def setup():
     build.ensure("plain")
     SCANNER[0] = build.ensure_scanner("plain")
+    HANG[0] = probe_hang()
 
 
 def make_strategy(ctx):
@@ -235,6 +287,9 @@ def case(ctx, f):
     for d in f["schemas"]:
         for x in d.get("tags", {}).get("excluded", []):
             ev.bump("note:" + x)
+    if HANG[0] and hang_shape(f):
+        ev.exclude(EXCL_HANG)
+        return
     text = c17gen.render(f)
     names = [d["name"] for d in f["schemas"]]
     r = evaluate(text, f["stem"], f["datadir"], names, os.path.join(ctx.wd, "case"))
@@ -262,6 +317,9 @@ def case(ctx, f):
         classes.append("two-declarations-one-file-name(listed twice)")
     if info.get("rejected"):
         classes.append("rejected-by-a-tool")
+    if info.get("timeout"):
+        classes.append("inconclusive:%s-timeout" % info["timeout"])
+        ev.inconclusive.append("%s did not return within %d s on %s" % (info["timeout"], TIMEOUT, common.chash(text)))
     # model expectation (classification only)
     ee, tt = set(), set()
     for d in f["schemas"]:
@@ -291,9 +349,11 @@ def replay_files(f):
 def main(tier, seed):
     setup()
     workers = max(2, min(12, common.NPROC - 2))
-    n_ex = 140 if tier == "quick" else 1500
+    n_ex = 500 if tier == "quick" else 4000
     return c17run.run(PROP, "exploration", RULE, tier, seed, make_strategy, case, confirm, replay_files, workers, n_ex,
                       min_cases=workers * n_ex // 3,
+                      pre=lambda ev, root: ev.extra.update({"hang_probe": "exp2cxx does not return (8 s) on two schemas with same-named supertypes: shape excluded"
+                                                                          if HANG[0] else "exp2cxx returns on two schemas with same-named supertypes: shape included"}),
                       post=lambda ev: ev.assumptions.extend([
                           "the scanner is invoked as SCHEMA_CMLIST does (absolute schema path, empty working directory) and "
                           "exp2cxx as SC_Run_exp2cxx.cmake does (cwd = the printed directory, argument = the path in SCHEMA_TARGETS)",
